@@ -110,6 +110,17 @@ def gen_grid(rng, tips, coal_rows, m, style):
         elif style == "cutoff":
             cutoff = root * rng.choice([0.5, 1.0, 1.5, 3.0])
             g = [cutoff * (j + 1) / m for j in range(m)]
+        elif style == "atcoal":
+            # grid points exactly ON coalescent times (the value of a step function at its jump is a convention: these
+            # cases are judged by the internal consistency of the published statistics with log_prob only)
+            g = [rng.uniform(0, root * 1.2) for _ in range(m)]
+            on = rng.sample(sorted(allc), min(len(allc), rng.randint(1, max(1, m))))
+            for j, x in enumerate(on[:m]):
+                g[j] = x
+            g = sorted(set(float(x) for x in g))
+            if len(g) == m and g[0] > 0:
+                return g
+            continue
         else:  # "attips": grid points exactly on sampling times
             pos = sorted({t for t in tips if t > 0})
             g = [rng.uniform(0, root * 1.3) for _ in range(m)]
@@ -204,7 +215,7 @@ def gen_case(rng, i, tier):
     grid = []
     if kind == "skygrid":
         m = rng.randint(1, 6 if tier == "quick" else 12)
-        case["grid_style"] = rng.choice(["inside", "inside", "beyond", "before", "cutoff", "attips"])
+        case["grid_style"] = rng.choice(["inside", "inside", "beyond", "before", "cutoff", "attips", "atcoal"])
         grid = gen_grid(rng, tips, coals, m, case["grid_style"])
     case["grid"] = grid
     k = n - 1 if kind == "skyride" else len(grid) + 1
@@ -696,6 +707,8 @@ def run(tier, seed, replay=None):
     for ci, (c, o) in enumerate(zip(cases, outs)):
         if isinstance(o, Exception):
             continue
+        if c.get("grid_style") == "atcoal":
+            continue            # a coalescence exactly on a grid point: outside the model's hypothesis (no_tie)
         rows = (c["B"] or 1)
         for r in range(rows):
             for e in coq_exprs(c, r):
